@@ -285,6 +285,35 @@ func plant(t *rapid.T, set *ymodel.Set) string {
 		if rapid.Bool().Draw(t, "cycle-attached") {
 			id.Bases = append(id.Bases, "cy0")
 		}
+		if rapid.Bool().Draw(t, "cycle-namesakes") {
+			// identities of the same names in the modules that import this one, each derived from its namesake on
+			// the cycle: the value list of a cycle member then holds two identities of its own name
+			owner := set.Owner(m)
+			if owner == nil {
+				owner = m
+			}
+			some := false
+			for _, m2 := range set.Modules {
+				if m2.IsSub || m2 == owner {
+					continue
+				}
+				for _, im := range m2.Imports {
+					if im.Module != owner.Name {
+						continue
+					}
+					for i := 0; i < n; i++ {
+						if i == 0 || rapid.IntRange(0, 3).Draw(t, "namesake") != 0 {
+							m2.Identities = append(m2.Identities, &ymodel.Identity{Name: fmt.Sprintf("cy%d", i), Bases: []string{fmt.Sprintf("%s:cy%d", im.Prefix, i)}})
+							some = true
+						}
+					}
+					break
+				}
+			}
+			if some {
+				return fmt.Sprintf("cycle-%d-with-namesakes", n)
+			}
+		}
 		return fmt.Sprintf("cycle-%d", n)
 	}
 }
